@@ -3,6 +3,7 @@
    arbitrary input nl of the theorems: they hold whatever the analysis returns. *)
 From Coq Require Import List ZArith NArith Bool Floats.
 From WTF Require Import Model.Validate Model.Text Model.Platform Model.Engine Proofs.EngineProofs Proofs.CandidateProofs.
+From WTF Require Import Model.Nlp Proofs.NlpProofs.
 Import ListNotations.
 
 (* every command returned with enhancement off is returned with it on (<= 10 distinct content words,
@@ -27,7 +28,22 @@ Proof. exact enhance_prefix. Qed.
 Theorem selected_are_query_terms : forall E cmds terms cap t, In t (select_top_terms E cmds terms cap) -> In t terms.
 Proof. exact select_subset. Qed.
 
+(* the analysis itself (Model/Nlp.v: ProcessQuery, the hint rule base and GetEnhancedKeywords, compared with the code on every
+   engine case; word tables read from the built code): for every query, the expanded term list has no duplicates and begins
+   with the keywords extracted from the user's own text, in the user's order, ahead of every hint, action and target term *)
+Theorem expanded_terms_keywords_first_no_duplicates : forall T words qlower,
+  let A := process_query T words qlower in
+  NoDup (enhanced_keywords A) /\ exists extra, enhanced_keywords A = a_keywords A ++ extra.
+Proof. exact enhanced_spec. Qed.
+
+(* ... and each keyword is a word the user typed or the first listed synonym of one *)
+Theorem keywords_come_from_the_query : forall T words acts tgts kws a t k, classify T words acts tgts kws = (a, t, k) ->
+  forall x, In x k -> In x kws \/ In x words \/ exists w s rest, In w words /\ lookup (t_synonyms T) w = Some (s :: rest) /\ x = s.
+Proof. exact classify_keywords. Qed.
+
 Print Assumptions nlp_superset.
 Print Assumptions nlp_first_four.
 Print Assumptions enhance_appends.
 Print Assumptions selected_are_query_terms.
+Print Assumptions expanded_terms_keywords_first_no_duplicates.
+Print Assumptions keywords_come_from_the_query.
